@@ -113,6 +113,10 @@ func opFacts(s *ast.Schema, doc *ast.QueryDocument, op *ast.OperationDefinition,
 			case *ast.Field:
 				if x.Alias == "id" && x.Name != "id" {
 					tags["f:alias-id-on-other-field"] = true
+					// the response key id is only special where the gateway stitches by it: on types that have an id field
+					if od := x.ObjectDefinition; od == nil || od.Fields.ForName("id") != nil {
+						tags["f:alias-id-on-type-with-id"] = true
+					}
 				}
 				dirs(x.Directives, false)
 				for _, a := range x.Arguments {
